@@ -4,6 +4,10 @@ import json, os
 ROOT = os.path.dirname(os.path.dirname(os.path.abspath(__file__)))
 
 CHECKS = {
+ 'C11': dict(level='exploration', design='DESIGN.md §5 C11',
+   technique='symbolic execution of the real AST of value_compare/value_type into z3 (vf.symex) over an algebraic datatype of values; order laws and equivalence with an independent specification decided by z3; CrossHair for the consumers',
+   text='The current source of value_compare and value_type is executed symbolically over a z3 datatype of BareScript values (unbounded ints, reals and strings, containers of up to 2 elements, nesting level 1 quick / 2 thorough). z3 decides reflexivity, antisymmetry, range, transitivity, null-least, int/float-spelling independence, bool-never-equals-number, absence of host TypeErrors and equivalence with an independently written specification of the documented order, for all such values; sat models are rebuilt as Python values and replayed on the real function. CrossHair checks that the six relational operators are the sign tests of systemCompare per operand-kind pair, that arraySort yields an ordered permutation and that mathMin/mathMax return a least/greatest argument.',
+   note='Trusted: z3, the symex operator models (validated every run against the real function on 961 concrete pairs), CrossHair. value_normalize_datetime is stubbed as the documented key map.'),
  'C13': dict(level='exploration', design='DESIGN.md §5 C13',
    technique='z3 regular-language lemmas on the live number clean-up and numeric-literal regexes against a validated grammar of repr(float); CrossHair over solver-indexed float corners, symbolic ints and solver-chosen mantissa/exponent texts',
    text='z3 decides for every text of the repr(float) grammar (up to 30 characters) that the live clean-up regex fires exactly on intpart.0+ (so integral values lose only the fraction and nothing else is touched) and that every cleaned non-negative text lies in the language of the live numeric-literal regex. CrossHair drives the real stringification, numberParseFloat and the expression parser over a corner pool of floats chosen by a symbolic index and over solver-chosen m e<exp> texts (null instead of non-finite values). The all-doubles round trip float(repr(x)) == x is CPython C code and is an assumption.',
